@@ -249,4 +249,50 @@ def P15tx (height b f : Nat) (feeAmount : Int) (tx : Tx) (out : Option Msg) : Pr
 instance (height b f : Nat) (fa : Int) (tx : Tx) (out : Option Msg) : Decidable (P15tx height b f fa tx out) := by
   unfold P15tx; split <;> infer_instance
 
+/-! ### ProcessDeposits / HandleEvents with several configured resources -/
+
+/-- a configured resource: id (resources are matched in ascending id order), bridge address, fee threshold -/
+structure Res where
+  rid  : Nat
+  addr : Nat
+  fee  : Int
+deriving Repr, DecidableEq
+
+/-- per transaction, resources in the given (id-sorted) order: the first resource for which the transaction decodes as a
+    deposit is credited; an error or (recovered) panic while decoding or handling drops the transaction -/
+def processTxR (height f : Nat) : List Res → Tx → Option (Nat × Msg)
+  | [], _ => none
+  | r :: rs, tx =>
+    match decode r.addr f r.fee tx.vouts with
+    | .deposit a d =>
+      match handleDeposit a d with
+      | .msg dest ab rc => some (r.rid, ⟨dest, calculateNonce height tx.hash, ab, rc⟩)
+      | _ => none
+    | .notDeposit => processTxR height f rs tx
+    | _ => none
+
+/-- does resource `r` credit the transaction: its bridge address is paid and the fee address gets at least ITS threshold -/
+def credits (f : Nat) (tx : Tx) (r : Res) : Bool :=
+  paysBridge r.addr tx.vouts && decide (r.fee ≤ (feeSum f tx.vouts : Int))
+
+/-- **P15 (pipeline, several resources)**: with well-formed OP_RETURN outputs the transaction is credited to the first
+    resource (in id order) whose address it pays and whose own fee threshold it meets, with exactly the single-resource
+    guarantees `P15tx` for that resource; if no resource qualifies, or an OP_RETURN output is malformed, nothing is emitted. -/
+def P15txR (height f : Nat) (rs : List Res) (tx : Tx) (out : Option (Nat × Msg)) : Prop :=
+  if WF tx.vouts then
+    match rs.find? (credits f tx) with
+    | none => out = none
+    | some r => P15tx height r.addr f r.fee tx (out.map (·.2)) ∧ ∀ x, out = some x → x.1 = r.rid
+  else out = none
+
+instance (height f : Nat) (rs : List Res) (tx : Tx) (out : Option (Nat × Msg)) : Decidable (P15txR height f rs tx out) := by
+  unfold P15txR; split
+  · split <;> infer_instance
+  · infer_instance
+
+/-- what one `HandleEvents(height)` call forwards: every emitted message of the block, once (the channel carries one batch
+    per destination; grouping is done by the driver) -/
+def processR (height f : Nat) (rs : List Res) (txs : List Tx) : List (Nat × Msg) :=
+  txs.filterMap (processTxR height f rs)
+
 end Sygma.C15
